@@ -218,6 +218,9 @@ class Ctx:
 # ---------------------------------------------------------------------------------------------------
 
 def _src_ast(fn):
+    pre = getattr(fn, '__verif_ast__', None)
+    if pre is not None:
+        return pre
     src = textwrap.dedent(inspect.getsource(fn))
     tree = ast.parse(src)
     node = tree.body[0]
@@ -1148,45 +1151,48 @@ def _and_const_int(x, mask):
 # ---------------------------------------------------------------------------------------------------
 # solving helpers
 
+def _fresh(assertions, timeout_s):
+    """One query = one fresh solver (z3's incremental core is far slower on FP/BV than its one-shot strategy)."""
+    s = z3.Solver()
+    s.set('timeout', int(max(timeout_s, 1) * 1000))
+    s.add(*assertions)
+    return s, s.check()
+
+
 def decide(assumptions, goal, side=(), timeout_s=60, solver='z3', names=None, exclude=()):
-    """Decide  assumptions => goal  (and assumptions => no side condition).  Returns the obligation-result dict."""
+    """Decide  assumptions => goal  (and assumptions => no encoding side condition).  `goal` may be a list of conjuncts, which are
+    decided one query each (cheapest first as given).  Returns the obligation-result dict."""
     import time
     t0 = time.time()
     q = 0
     out = dict(queries=0)
-    s = z3.Solver()
-    s.set('timeout', int(timeout_s * 1000))
-    s.add(*assumptions)
-    s.add(*exclude)
-    r = s.check()
+    base = list(assumptions) + list(exclude)
+    goals = list(goal) if isinstance(goal, (list, tuple)) else [goal]
+    budget = lambda: timeout_s - (time.time() - t0)
+    s, r = _fresh(base, min(timeout_s, 60))
     q += 1
     out['reach'] = str(r)
     if str(r) != 'sat':
         out.update(verdict='unknown', note='assumptions not satisfiable/decided (%s): vacuous' % r, queries=q, solver_s=time.time() - t0)
         return out
     if side:
-        s.push()
-        s.add(z3.Or(*side))
-        r = s.check()
+        s, r = _fresh(base + [z3.Or(*side)], budget())
         q += 1
         if str(r) != 'unsat':
             m = _model(s, names) if str(r) == 'sat' else {}
             out.update(verdict='unknown', note='encoding side-condition can fail (%s) e.g. %s: encoding not valid on the whole bound' % (r, m),
                        queries=q, solver_s=time.time() - t0)
             return out
-        s.pop()
-    s.add(z3.Not(goal))
-    r = s.check()
-    q += 1
-    out.update(queries=q, solver_s=time.time() - t0)
-    if str(r) == 'unsat':
-        out['verdict'] = 'unsat'
-    elif str(r) == 'sat':
-        out['verdict'] = 'sat'
-        out['model'] = _model(s, names)
-    else:
-        out['verdict'] = 'unknown'
-        out['note'] = 'solver answered %s (%s)' % (r, s.reason_unknown())
+    for g in goals:
+        s, r = _fresh(base + [z3.Not(g)], budget())
+        q += 1
+        if str(r) == 'sat':
+            out.update(verdict='sat', model=_model(s, names), queries=q, solver_s=time.time() - t0)
+            return out
+        if str(r) != 'unsat':
+            out.update(verdict='unknown', note='solver answered %s (%s) after %.0fs' % (r, s.reason_unknown(), time.time() - t0), queries=q, solver_s=time.time() - t0)
+            return out
+    out.update(verdict='unsat', queries=q, solver_s=time.time() - t0)
     return out
 
 
